@@ -107,7 +107,10 @@ def check_results(ctx: Ctx, results, exprs=None, meta=None):
 def designs(ctx: Ctx, n: int):
     out = []
     for i in range(n):
-        d = gen.gen_cdna(ctx.rng, {}) if i % 4 == 3 else gen.gen_sge(ctx.rng, {'p_bg': 0.0, 'allow_junction_pam': False, 'p_custom': 0.6,
+        # a third of the SGE designs carry background variants (indels upstream of / inside the targetons): names, like mut_position, are in
+        # reference coordinates
+        d = gen.gen_cdna(ctx.rng, {}) if i % 4 == 3 else gen.gen_sge(ctx.rng, {'p_bg': 0.35, 'bg_upstream': True, 'bg_kinds': ['snv', 'ins', 'del', 'del'],
+                                                                               'allow_junction_pam': False, 'p_custom': 0.6,
                                                                                'non_cds_mut': ['snv', '1del', '2del0', '3del1', '5del3'], 'p_no_op': 0.6})
         t = d['targetons'][0]
         L = t['ref_end'] - t['ref_start'] + 1 + len(d['opts'].get('adaptor5') or '') + len(d['opts'].get('adaptor3') or '')
